@@ -148,6 +148,38 @@ fn one_case(ctx: &Ctx, case: u64, l: &mut Local) {
             l.count("colliding-prefix-queue.not-found");
         }
     }
+    if case % 16 == 5 {
+        // history on ONE queue: an issuance that fails at the signing step (unknown algorithm name),
+        // then a successful one — the second still takes queued salts in queue order
+        let cfg2 = Config::from_index(case / 16);
+        let s2 = pipeline::gen_scenario(ctx, &mut r, cfg2.clone());
+        let n = s2.strat.sd.len();
+        if n >= 2 && n <= 400 {
+            let salts: Vec<String> = (0..2 * n + 3).map(|k| format!("hq{case}x{k}")).collect();
+            fill_salts(&salts);
+            let mut bad = sd_jwt_rs::SDJWTIssuer::new(keys::issuer_enc(cfg2.alg, 0), Some((*r.pick(&["NOPE256", "", "RS256"])).to_string()));
+            let first = api::issue(&mut bad, &s2.u, &s2.strat, cfg2.holder, false, cfg2.fmt);
+            let mut good = api::new_issuer(cfg2.alg, 0, true);
+            let second = pipeline::issue_with(&mut good, &s2.u, &s2.strat, cfg2.holder, false, cfg2.fmt);
+            fill_salts(&[]);
+            l.evals += 2;
+            if let (false, Ok(iss2)) = (first.is_ok(), second) {
+                let got: Vec<String> = iss2.parts.disclosures.iter().filter_map(|d| iss2.by.get(&model::digest_of(d)).and_then(|dd| dd.json.get(0).and_then(Value::as_str).map(String::from))).collect();
+                let run_at = |k: usize| got.len() == n && salts.get(k..k + n).map(|w| w == got.as_slice()).unwrap_or(false);
+                if run_at(0) || run_at(n) {
+                    l.count("salts.in-order.after-a-failed-issuance");
+                } else {
+                    l.violate(Violation {
+                        subcheck: "salt-order".into(),
+                        class: "issuance after an issuance that failed at the signing step".into(),
+                        observed: "the disclosures do not carry a contiguous run of the queue in queue order".into(),
+                        case,
+                        detail: json!({"config": cfg2.describe(), "queue_head": salts.iter().take(2 * n.min(6)).collect::<Vec<_>>(), "salts_used": got.iter().take(12).collect::<Vec<_>>(), "disclosures": n}),
+                    });
+                }
+            }
+        }
+    }
     let mut cfg = Config::from_index(case);
     if r.chance(50) {
         cfg.profile = Profile::MetacharStrings;
